@@ -64,7 +64,8 @@ pub fn drive(args: &[String]) {
             last
         }));
         // the image proper and a second crop of the same size at another offset (same handler)
-        let imgs = [parent.crop(0..h, 0..w), parent.crop(6..h + 6, 2..w + 2), parent.clone()];
+        // (same handler), two full-width row crops (rows back to back in memory, different start) and the parent
+        let imgs = [parent.crop(0..h, 0..w), parent.crop(6..h + 6, 2..w + 2), parent.crop(0..h, ..), parent.crop(6..h + 6, ..), parent.clone()];
         let res = guarded(|| {
             let mut hnd = SixelImageHandler::new(bg);
             let mut recs = Vec::new();
